@@ -662,3 +662,65 @@ func renameInContract(ct *Contract, alias map[string]string) bool {
 	}
 	return changed
 }
+
+// applyDroppedRenames: a `dropped` declaration names a private method whose calls are left out of the analysis (metrics,
+// logging helpers). When that method was renamed - it existed when the contracts were written, no function matches the
+// declaration now, and exactly one function with the same receiver is new in that package - the declaration follows it.
+func (p *Program) applyDroppedRenames(prop string, recorded map[string][]bindEntry) []string {
+	var notes []string
+	if recorded == nil {
+		return nil
+	}
+	for _, d := range append([]string{}, p.dropped...) {
+		dk := strings.ReplaceAll(d, ").", ".")
+		i := lastDot(dk)
+		if i < 0 {
+			continue
+		}
+		prefix := dk[:i+1]
+		exists := false
+		for _, fi := range p.funcs {
+			if fi.Obj != nil && strings.Contains(fullName(fi.Obj), d) {
+				exists = true
+				break
+			}
+		}
+		if exists {
+			continue
+		}
+		for key, list := range recorded {
+			if !strings.HasPrefix(key, "$functions:") {
+				continue
+			}
+			pkg := key[len("$functions:"):]
+			was := false
+			known := map[string]bool{}
+			for _, f := range list {
+				known[f.Name] = true
+				if f.Name == dk {
+					was = true
+				}
+			}
+			if !was {
+				continue
+			}
+			var cands []string
+			for _, fi := range p.funcs {
+				if fi.Pkg == nil || fi.Pkg.PkgPath != pkg || fi.Decl == nil || fi.Obj == nil {
+					continue
+				}
+				keys := contractKeys(fi.Obj)
+				short := keys[len(keys)-1]
+				if strings.HasPrefix(short, prefix) && lastDot(short) == i && !known[short] && p.contractFor(fi.Obj) == nil {
+					cands = append(cands, short)
+				}
+			}
+			if len(cands) == 1 {
+				nd := strings.TrimSuffix(prefix, ".") + ")." + cands[0][i+1:]
+				p.dropped = append(p.dropped, nd)
+				notes = append(notes, fmt.Sprintf("dropped helper %s was renamed to %s: the declaration follows it", dk, cands[0]))
+			}
+		}
+	}
+	return notes
+}
